@@ -154,7 +154,8 @@ let rules = [("operand",ROperand);("argtype",RArgType);("arity+",RArityPlus);("a
              ("unknown-fn",RUnknownFn);("other-fn-local",ROtherFnLocal);("out-of-scope",ROutOfScope);("set-immutable",RSetImmutable);
              ("set-param",RSetParam);("set-loopvar",RSetLoopVar);("missing-return",RMissingReturn);("wrong-return",RWrongReturn);
              ("return-novalue",RReturnNoValue);("nonbool-cond",RNonBoolCond);("void-variable",RVoidVariable);("dup-param",RDupParam);
-             ("main-param",RMainParam)]
+             ("main-param",RMainParam);("out-of-scope-return",ROutOfScopeReturn);("out-of-scope-break",ROutOfScopeBreak);
+             ("out-of-scope-continue",ROutOfScopeContinue)]
 let rule_name r = fst (List.find (fun (_, x) -> x = r) rules)
 
 let rec max_e (e : expr) : int =
@@ -212,7 +213,8 @@ let all_mutants (p : program) : (ostring * int * int list * n * program) list =
       List.iter (fun a -> try_ RWrongReturn k path a) (List.init 2 n_of_int);
       try_ RReturnNoValue k path N0;
       List.iter (fun a -> try_ RNonBoolCond k path a) (List.init 2 n_of_int);
-      try_ RVoidVariable k path fresh) (List.rev !acc);
+      try_ RVoidVariable k path fresh;
+      try_ ROutOfScopeReturn k path fresh; try_ ROutOfScopeBreak k path fresh; try_ ROutOfScopeContinue k path fresh) (List.rev !acc);
     List.iter (fun a -> try_ RDupParam k [] a) small;
     try_ RMainParam k [] fresh;
     List.iter (fun a -> try_ RSetParam k [] a) small;
